@@ -1,5 +1,6 @@
 """C03 — the contract-level message accepts exactly the union of its parts and routes right."""
 import json
+import re
 
 from .. import types as T
 from ..spec import KINDS_ENUM, handlers, part_by_id
@@ -159,3 +160,30 @@ def run(ctx):
             check_prog(ctx, r, p, n)
     fam.each_bin(per_bin)
     ctx.cov["programs"] = len(fam.progs)
+    # handlers taking 128-bit primitives: their JSON numbers may lie beyond the 64-bit range
+    wide = ctx.family("wide")
+    wctx = WideCtx(ctx)
+    wide.each_bin(lambda b, progs, r: [check_prog(wctx, r, p, n) for p in progs])
+    ctx.cov["wide_programs"] = len(wide.progs)
+
+
+BIG_INT = re.compile(r"(?<![\w.\"])-?\d{19,}(?![\w.\"])")
+
+
+class WideCtx:
+    """The context of the `wide` programs: a disagreement on a document that carries an integer literal outside the
+    64-bit range gets one signature of its own (so that the recorded finding covers exactly that and nothing else)."""
+
+    def __init__(self, ctx):
+        self._ctx = ctx
+
+    def __getattr__(self, name):
+        return getattr(self._ctx, name)
+
+    def violate(self, signature, what, detail):
+        doc = (detail or {}).get("doc") or ""
+        big = [int(x) for x in BIG_INT.findall(doc)]
+        if any(v >= 2**64 or v < -2**63 for v in big):
+            self._ctx.count("documents_with_integers_beyond_64_bits_disagreeing")
+            return self._ctx.violate("wide-int-beyond-64-bits", what, detail)
+        return self._ctx.violate(signature, what, detail)
